@@ -56,3 +56,10 @@ Example C10_boundary : bins_t 30 30 30 = [(30, 60)] /\ bins_t 30 30 10 = [(10, 4
   /\ counted_bins false 55 30 30 10 = [(10, 40); (20, 50)].
 Proof. vm_compute. repeat split. Qed.
 Print Assumptions C10_boundary.
+
+(* split_double_BAM.py takes element [0] of coordinate_to_bins(DS, binsize, binsize) (call regenerated
+   from source): it is the bin containing the site, never the preceding one *)
+Theorem C10_split_double_bin : forall ds b, 0 < b ->
+  split_double_bin ds b = Some (b * (ds / b), b * (ds / b) + b).
+Proof. exact split_double_bin_ok. Qed.
+Print Assumptions C10_split_double_bin.
